@@ -2124,7 +2124,7 @@ class ktensor:
 
         factor_matrices = []
         for i in remdims:
-            factor_matrices.append(self.factor_matrices[i])
+            factor_matrices.append(self.factor_matrices[i].copy())
         return ttb.ktensor(factor_matrices, new_weights, copy=False)
 
     def update(self, modes: OneDArray, data: np.ndarray) -> ktensor:
